@@ -33,7 +33,7 @@ class Shadow:
         self.special = 0.08
         self.weights = {'late-unschedule': 1.0, 'orphan': 1.0, 'unschedule-orphan': 2.0, 'late-resources': 1.5, 'jp-cancel-path': 1.0,
                         'late-schedule': 1.0, 'dead-instance-attempt': 1.0, 'compact-cycle': 1.0, 'cancel-cleanup-cancel': 1.0,
-                        'jp-timeout': 1.0}
+                        'jp-timeout': 1.0, 'resources-again': 1.0, 'late-creating': 1.0}
         self.abs_in_update = 0.2       # share of in-update parents a bunch names by ABSOLUTE id (the legacy `parent_ids` form)
         self.legacy_spelling = 0.3     # share of specs with absolute parents that send them under the deprecated key `parent_ids` (L prefix)
         self.jp_jobs = 0.2             # share of job-private jobs (explicit machine type: the `creating` path)
@@ -73,7 +73,9 @@ class Shadow:
         b = self.n_batches
         self.batches[b] = {'user': user, 'bp': bp, 'updates': [], 'groups': {0: {'parent': None, 'depth': 0, 'update': None}}, 'n_jobs': 0,
                            'n_groups': 0, 'cancelled': set(), 'deleted': False, 'token': self.tokens}
-        self.emit(f'createBatch {user} {bp} {self.tokens}', 'createBatch', replayable=True)
+        # the batch spec of create / create-fast announces the number of jobs of the first submission
+        announced = self.rng.choice([0, 0, 1, 2, 3, 5])
+        self.emit(f'createBatch {user} {bp} {self.tokens}' + (f' {announced}' if announced else ''), 'createBatch', replayable=True)
         return b
 
     def open_update(self, b, n_jobs, n_groups):
@@ -289,6 +291,11 @@ class Shadow:
         billable = [(k, J) for k, J in running if J.get('res') == J['attempt']]
         if billable:
             cands['compact-cycle'] = billable
+            cands['resources-again'] = billable
+        done_jp = [(k, J) for k, J in jobs if J['state'] in TERMINAL and J['ic'] == 2 and not self.job_cancelled(k[0], J)
+                   and any(kk[0] == k[0] and JJ['state'] not in TERMINAL and self.visible(kk[0], JJ) for kk, JJ in jobs)]
+        if done_jp:
+            cands['late-creating'] = done_jp
         live_batches = [b for b, B in self.batches.items() if not B['deleted'] and 0 not in B['cancelled'] and
                         any(k[0] == b and J['state'] in ('Ready', 'Running', 'Creating') and self.visible(b, J) for k, J in jobs)]
         if len(live_batches) >= 2:
@@ -387,6 +394,27 @@ class Shadow:
                 t2 = self.tick()
                 self.emit(f'heartbeat {t2} {self.date} {b}:{j}:{a}', 'heartbeat', replayable=True)
                 self.emit('compact', 'compact:after-usage')
+        elif name == 'resources-again':
+            # the resources of an attempt are registered a second time with OTHER quantities after usage accrued (job-private: the driver
+            # registers whole-machine figures in mark_job_creating, the worker's job_started sends its own; a repeated report with a
+            # different resource list)
+            a, inst = J['attempt'], J['inst']
+            if J.get('started') != a:
+                self.emit(f'started {b} {j} {a} {inst} {ts - rng.choice([5, 20])} {d}', 'started', replayable=True)
+                J['started'] = a
+            self.emit(f'heartbeat {self.tick()} {self.date} {b}:{j}:{a}', 'heartbeat', replayable=True)
+            res = rng.sample([1, 2, 3, 4], rng.randint(2, 4))
+            self.emit(f'addResources {b} {j} {a} {self.date} ' + ' '.join(f'{x}:{rng.choice([2, 500, 2000, 7680])}' for x in res),
+                      'addResources:again-other-quantities')
+            if rng.random() < 0.6:
+                self.emit(f'heartbeat {self.tick()} {self.date} {b}:{j}:{a}', 'heartbeat', replayable=True)
+        elif name == 'late-creating':
+            # a job-private job was selected Ready, its replacement instance is being created; meanwhile the late job_complete of its
+            # previous (preempted) attempt made it terminal; then mark_job_creating for the new instance arrives
+            inst = self.new_instance(False, activate=False)
+            a = self.next_att
+            self.next_att += 1
+            self.emit(f'creating {b} {j} {a} {inst} {ts} {d}', 'creating:of-terminal-job')
         elif name == 'jp-timeout':
             # job-private instance that never activates: mark_job_creating on the pending instance, then the activation timeout
             inst = self.new_instance(False, activate=False)
@@ -754,10 +782,12 @@ def submission(rng: random.Random, flavour: str = 'c39') -> Dict[str, Any]:
     b = s.create_batch(user=1)
     for _ in range(rng.choice([1, 2])):
         s.new_instance(True)
-    jp_share = {'c39': 0.2, 'c05': 0.0, 'c10': 0.25}[flavour]
+    jp_share = {'c39': 0.25, 'c05': 0.3, 'c10': 0.25, 'c07': 0.2}[flavour]
     for k in range(rng.choice([1, 1, 2])):
         n_jobs = rng.randint(2 if flavour == 'c05' else 1, 5)
-        n_groups = rng.choice([0, 1, 2, 3])
+        n_groups = rng.choice([2, 3, 4] if flavour == 'c07' else [0, 1, 2, 3])
+        if flavour == 'c07':
+            n_jobs = rng.randint(3, 6)           # several jobs spread over sibling groups
         u = s.open_update(b, n_jobs, n_groups)
         s.insert_groups(b, u)
         s.insert_jobs(b, u)
@@ -789,11 +819,33 @@ def submission(rng: random.Random, flavour: str = 'c39') -> Dict[str, Any]:
         s.commit(b, u)
     groups = list(s.batches[b]['groups'])
     script: List[str] = []
+    if flavour == 'c07':
+        # a second batch of the same user next to it, then: everything gets scheduled, ONE non-root group (or one batch) is cancelled,
+        # the canceller's loops run
+        if rng.random() < 0.5:
+            b2 = s.create_batch(user=1)
+            u2 = s.open_update(b2, rng.randint(1, 3), 0)
+            s.insert_jobs(b2, u2)
+            u2['bunches'] = [[';'.join(t.split(';')[:6] + [str(rng.choice([250, 500, 1000])), '0']) for t in part] for part in u2['bunches']]
+            while u2['bunches']:
+                s.send_bunch(b2, u2)
+            s.commit(b2, u2)
+        for _ in range(rng.randint(1, 3)):
+            script.append(rng.choice(['S', 'S', 'J', 'Q']))
+        nonroot = [g for g in groups if g != 0]
+        for _ in range(rng.randint(1, 2)):
+            tgt = rng.choice(nonroot) if nonroot and rng.random() < 0.8 else 0
+            script.append(f'C{b} {tgt}')
+            for _ in range(rng.randint(1, 4)):
+                script.append(rng.choice(['U', 'U', 'K', 'R', 'S', 'WSuccess', 'O']))
+        return {'ops': s.ops, 'kind': 'actors', 'actors': script, 'aseed': rng.randint(0, 10 ** 6)}
     if flavour == 'c05':
         for _ in range(rng.randint(5, 14)):
             r = rng.random()
-            if r < 0.3:
+            if r < 0.2:
                 script.append('S')
+            elif r < 0.32:
+                script.append('J')
             elif r < 0.65:
                 script.append('W' + rng.choice(['Failed', 'Error', 'Failed', 'Success']))
                 if rng.random() < 0.6:
